@@ -12,7 +12,10 @@ LEVEL_TEXT = ("Theorems by induction on the script: both read paths fill the buf
               "(single bytes, cuts inside the header, between fixed part and payload, several frames per read, data together with io.EOF); hence recv and the whole "
               "receive loop over any segmentation equal recv / the loop on the flat stream, with exactly the unconsumed bytes left over; a stream ending inside a frame gives "
               "a connection error (or the rejection of a frame being thrown away), never a delivery. Every run re-checks the proofs and compares model and property with the real code.")
-LEVEL_NOTE = ("Trusted: Coq kernel + vm_compute; the hand model Frame/Reader.v (tied by the differential only); the kernel's recvmsg is modelled as 'hands over any positive prefix, "
+LEVEL_NOTE = ("Trusted: Coq kernel + vm_compute; the hand model Frame/Reader.v, tied by the differential and -- for the iovec-advance loop of readFromBuffersLinux -- by go2coq VecGen: the statements after each recvmsg "
+              "are read into a small imperative language (Frame/Imp.v, Go index/slice panics included) and RUN against consume_iov for every list of <= 3 buffers of lengths 0..4 and every byte count (Frame/VecTie.v: bounded exhaustive, "
+              "semantic -- renaming or an equivalent rewrite passes, the rewrites of C17-m3 / C02-m4 fail; not a theorem for all buffer lists, and the outer recvmsg/EOF loop stays a hand model). Real socket pairs: every cut position "
+              "of short two-vector frames / 2-3 buffer layouts with a gated second write (what one recvmsg really returned is not observable; under load the two writes may coalesce, which loses coverage, never gives an alarm). The kernel's recvmsg is modelled as 'hands over any positive prefix, "
               "scattered over the iovecs in order' -- real coalescing on the socket is sampled, not controlled. Generic path: theorems need every scripted Read to hand over >= 1 byte "
               "(a split of the stream); vecnet deliberately treats a (0, nil) Read inside a body as the end of the stream (decision of the maintainers: fixes/C17-zero-read not applied); a split of a stream into reads "
               "has non-empty reads, so such scripts are outside the property's quantifier: the behaviour is modelled (zero_eof), compared by the differential (zero-read cases) and covered by "
@@ -26,7 +29,7 @@ ASSUMPTIONS = [
 TRUSTED_BASE = [
     "Coq 8.16.1 kernel, vm_compute (cases evaluation); no native_compute",
     "axioms: none (Print Assumptions: closed under the global context for every property theorem)",
-    "go2coq ConstGen and FrameGen (registry)",
+    "go2coq ConstGen, FrameGen (registry) and VecGen (iovec-advance statements of readFromBuffersLinux) + the interpreter Frame/Imp.v",
     "hand-written models Frame/Reader.v and Frame/Model.v, tied by harness/p9/c17_seg_test.go, harness/vecnet/c17_vecnet_test.go + Frame/FrameCases.v",
 ]
 
@@ -48,7 +51,7 @@ def run(ctx):
     c02.summarise(ctx, allobs, nm,
                   "streams of 1-7 frames (with/without payloads, with damaged frames, cut mid-frame) x {every two-piece split, single bytes, random small/large cuts, data+EOF, "
                   "zero-length reads} through a scripted io.Reader; the same streams through a unix socket pair written in scripted chunks, read directly (recvmsg path) and behind a "
-                  "plain io.Reader; a 300 KB payload through the socket; vecnet.Buffers.ReadFrom alone on buffer layouts incl. empty buffers x the same segmentations and the socket; "
+                  "plain io.Reader; every cut position of two short two-vector frames with a gated second write; a 300 KB payload through the socket; vecnet.Buffers.ReadFrom alone on buffer layouts incl. empty buffers x the same segmentations and the socket; "
                   "distinct = distinct observation records")
     modes = {}
     for o in allobs:
